@@ -5,6 +5,8 @@ CONSTANTS
   Kinds = {"plain"}
   CloseTarget = "own"
   RegisterGuard = TRUE
+  Handshakes = FALSE
+  HsGuard = TRUE
   Record = TRUE
 INVARIANTS ServingWhileRunning RegistryExact StopPostcondition Export
 CHECK_DEADLOCK FALSE
